@@ -444,10 +444,11 @@ func main() {
 		type e struct {
 			Kind, Variant, Key string
 			Flows              bool
+			Tags               []string
 		}
 		var es []e
 		for _, a := range catalog {
-			es = append(es, e{a.Kind, a.Variant, a.key(), a.Flows})
+			es = append(es, e{a.Kind, a.Variant, a.key(), a.Flows, a.tags()})
 		}
 		var ws, ss []string
 		for _, w := range wraps {
